@@ -150,4 +150,48 @@ example : KernelsMcCost.adCostBand3 3 5 = 2 ∧ KernelsMcCost.sdCostMono (1 / 4)
 example : KernelsMcCost.reNan 1 4 5 3 0 2 1 = true ∧ KernelsMcCost.reNan 1 4 5 3 2 2 1 = false
     ∧ KernelsMcCost.reNan 0 4 5 3 0 0 0 = false := by decide +kernel
 
+/-! ## (3b) census -/
+
+theorem censusCost_eq (l r : Nat) : KernelsMcCost.censusCost l r = KernelsCensus.popcount32b (l ^^^ r) := by
+  unfold KernelsMcCost.censusCost KernelsMcCost.censusXor
+  first | rfl | (rw [Nat.xor_comm])
+
+/-- both operands are the census images (no band: `census_transform` already selected it), the left one on `point_p`, the right
+    one on `point_q` -/
+theorem census_operands_eq_model : KernelsMcCost.censusXorOperands = [("left", "none", "p"), ("right", "none", "q")] := by
+  decide +kernel
+
+/-- **the regenerated census cost of two 32-bit strings is their Hamming distance** -/
+theorem censusCost_eq_hamming (a b : Nat) (ha : a < 2 ^ 32) (hb : b < 2 ^ 32) :
+    KernelsMcCost.censusCost a b = ((List.range 32).filter (fun i => Bool.xor (a.testBit i) (b.testBit i))).length := by
+  rw [censusCost_eq]; exact C02Census.census_cost_eq_hamming a b ha hb
+
+/-- 3×3 window: the regenerated cost of the two census strings of the windows centred on `(r, c)` is the number of
+    neighbours whose comparison with the centre differs between the two images -/
+theorem censusCost_window3 (A B : Img) (r c : Int) :
+    KernelsMcCost.censusCost (censusBits 3 A (r - 1) (c - 1)) (censusBits 3 B (r - 1) (c - 1)) =
+      winCount 1 (fun a b => decide (A.px a b > A.px r c) != decide (B.px a b > B.px r c)) r c := by
+  rw [censusCost_eq, C02Census.popcount32b_generated_eq_model]; exact census_hamming3 A B r c
+
+/-- 5×5 window -/
+theorem censusCost_window5 (A B : Img) (r c : Int) :
+    KernelsMcCost.censusCost (censusBits 5 A (r - 2) (c - 2)) (censusBits 5 B (r - 2) (c - 2)) =
+      winCount 2 (fun a b => decide (A.px a b > A.px r c) != decide (B.px a b > B.px r c)) r c := by
+  rw [censusCost_eq, C02Census.popcount32b_generated_eq_model]; exact census_hamming5 A B r c
+
+/-- the model's census plane, written with the regenerated cost -/
+theorem rawCensus_eq_generated (x : Input) (k : Int) (r c : Int) :
+    rawCensus x k r c =
+      (let o := half x.w
+       let Rk := shiftRight x.R x.sp (iRight k x.sp)
+       let pq := pointInterval ((x.L.cols : Int) - (x.w - 1 : Nat)) ((Rk.cols : Int) - (x.w - 1 : Nat)) k x.sp
+       let r' := r - o
+       let c' := c - o
+       if 0 ≤ r' ∧ r' < (x.L.rows : Int) - 2 * o ∧ 0 ≤ c' ∧ c' < (x.L.cols : Int) - 2 * o ∧ pq.p0 ≤ c' ∧ c' < pq.p1 then
+         Cell.num (KernelsMcCost.censusCost (censusBits x.w x.L r' c') (censusBits x.w Rk r' (pq.q0 + (c' - pq.p0))))
+       else Cell.nan) := by
+  simp only [rawCensus, censusCost_eq, C02Census.popcount32b_generated_eq_model]
+
+example : KernelsMcCost.censusCost 0x1FFFFFF 0x1555555 = 12 := by decide +kernel
+
 end Pandora.C02KernelsMcCost
